@@ -5,9 +5,13 @@
 -/
 import GormModel.Model.Callbacks
 import GormModel.Lemmas.Callbacks
+import GormModel.Lemmas.CallbacksReach
+import GormModel.Lemmas.CallbacksPost
+import GormModel.Lemmas.CallbacksTable
 import GormModel.Gen.Pipelines
 namespace Gorm
 open Gen
+open CbL
 
 /-- the built-in registrations of one pipeline as model operations (handler id = position) -/
 def builtinOps (regs : List CbReg) : List RegOp :=
@@ -34,6 +38,68 @@ theorem C17_sortCallback_nodup (names : List String) (fuel i : Nat) (st : SortSt
     contains a name twice -- so no callback can run twice, for all histories, sizes and constraints. -/
 theorem C17_sorted_nodup (cs : List Cb) : (sortCallbacks cs).sorted.Nodup :=
   sortCallbacks_nodup cs
+
+/-- `getRIndex` returns the LAST index of the name (so "the handler of a name" = that of its last record) -/
+theorem C17_getRIndex_some (l : List String) (s : String) (k : Nat) (h : getRIndex l s = some k) :
+    k < l.length ∧ l[k]! = s ∧ ∀ j, k < j → j < l.length → l[j]! ≠ s := getRIndex_some l s k h
+
+/-- COMPLETENESS + SOUNDNESS of the order, for EVERY callback table (all sizes, all constraints, whatever
+    `before`/`after` rewrites earlier compiles left behind): if `sortCallbacks` returns no error -- in
+    particular it did not run out of fuel -- the computed order consists of exactly the names of the table.
+    With `C17_sorted_nodup`: every name of the table is placed exactly once. -/
+theorem C17_sorted_complete (cs : List Cb) (hok : (sortCallbacks cs).err = none) (n : String) :
+    n ∈ (sortCallbacks cs).sorted ↔ n ∈ cs.map (·.name) := by
+  constructor
+  · exact sortCallbacks_sorted_subset cs n
+  · intro hn
+    obtain ⟨c, hc, rfl⟩ := List.mem_map.mp hn
+    exact sortCallbacks_complete cs hok c hc
+
+/-- even when an error is returned, nothing but names of the table is ever placed -/
+theorem C17_sorted_subset (cs : List Cb) : ∀ s ∈ (sortCallbacks cs).sorted, s ∈ cs.map (·.name) :=
+  sortCallbacks_sorted_subset cs
+
+/-- `compile` never leaves a Remove marker or an unmatched record in `p.callbacks`, and after ANY history
+    the names present in `p.callbacks` are exactly the live ones (`liveName`: registered with a matching
+    `Match`, or `Replace`d, after the last `Remove` of that name) -- `removeCallbacks` drops exactly the
+    removed names, the `before`/`after` rewrites of `sortCallback` never touch names. -/
+theorem C17_table_is_live_names (h : List RegOp) :
+    Clean (Proc.run {} h).1.callbacks ∧
+    ∀ n, n ∈ (Proc.run {} h).1.callbacks.map (·.name) ↔ liveName h n :=
+  ⟨run_clean h, run_names h⟩
+
+/-- MAIN (every registered, non-removed callback runs exactly once), for ALL histories `h` and any further
+    call `op`: if that call returns no error, then the execution order `order` (ghost: the names of `p.fns`)
+    is duplicate-free, consists of exactly the live names of `h ++ [op]`, and `p.fns` holds exactly one
+    handler per placed name -- that of the LAST record with the name (the rule of `processor.Get`). -/
+theorem C17_exactly_once (h : List RegOp) (op : RegOp) :
+    let r := (Proc.run {} h).1.apply op
+    r.2 = none →
+      r.1.order.Nodup ∧ (∀ n, n ∈ r.1.order ↔ liveName (h ++ [op]) n) ∧
+      r.1.fns = r.1.order.filterMap (handlerOf r.1.callbacks) ∧ r.1.fns.length = r.1.order.length := by
+  intro r hok
+  have hclean := run_clean h
+  have hord : ∀ n, n ∈ r.1.order ↔ liveName (h ++ [op]) n := by
+    intro n
+    rw [liveName_snoc]
+    rw [apply_order _ hclean op hok n]
+    exact liveStep_congr (run_names h) op n
+  have hfns : r.1.fns = r.1.order.filterMap (handlerOf r.1.callbacks) :=
+    sortCallbacks_fns _ hok
+  refine ⟨sortCallbacks_nodup _, hord, hfns, ?_⟩
+  rw [hfns]
+  apply length_filterMap_of_isSome
+  intro n hn
+  apply handlerOf_isSome _ (compile_clean _)
+  have h1 := (apply_order _ hclean op hok n).mp hn
+  exact (apply_names _ hclean op n).mpr h1
+
+/-- non-vacuity of `C17_exactly_once`: a history with Before/After/Replace/Remove whose last call succeeds -/
+example : ((Proc.run {} [.register "a" "" "" true 0, .register "b" "" "" true 1, .register "x" "b" "" true 2,
+    .remove "a", .replace "b" "" "" 7]).1.apply (.register "y" "" "x" true 3)).2 = none ∧
+    ((Proc.run {} [.register "a" "" "" true 0, .register "b" "" "" true 1, .register "x" "b" "" true 2,
+    .remove "a", .replace "b" "" "" 7]).1.apply (.register "y" "" "x" true 3)).1.fns = [2, 7, 3] := by
+  decide
 
 /-- FINDING F12 (counterexample, kernel-checked): a callback that names itself never finishes sorting:
     the model runs out of fuel (the Go code overflows the stack instead of returning an error). -/
